@@ -420,6 +420,16 @@ pub fn eval_session_check(check: &str, case: &Case, replies: &[String]) -> Optio
                 Some(i) => Err(format!("op {} failed with {} although the cap is not exceeded", i, replies[i])),
             }
         }
+        ["snap-field-eq", i, j, key] => {
+            let (i, j): (usize, usize) = (i.parse().unwrap(), j.parse().unwrap());
+            let fa = snapshot_fields(&replies[i]);
+            let fb = snapshot_fields(&replies[j]);
+            if field(&fa, key) == field(&fb, key) {
+                Ok(())
+            } else {
+                Err(format!("state field {} differs: {} vs {}", key, field(&fa, key), field(&fb, key)))
+            }
+        }
         ["no-syntax-error"] => {
             let mut res = Ok(());
             for i in 0..case.ops.len() {
